@@ -31,6 +31,7 @@ RULE = (
     "after NOTES/NOTEDATA, stray text, missing ';', BOM, comment or escape; distinct = distinct case JSON. Texts ending in "
     "an unpaired backslash are completed with a line break (known finding of msdparser, probed separately)"
 )
+RULE += " " + 'Added after the seeding rounds: keys written with a backslash escape inside them (also as first key: VER\\\\SION), whitespace other than blank/tab/CR/LF at the edges of components, U+FEFF inside components.'
 ASSUMPTIONS = [
     "msdparser.parse_msd is the trusted tokenizer (also for which text is stray)",
     "files are read in text mode with universal newlines, so file entry points are compared with the newline-translated text",
